@@ -361,10 +361,11 @@ Section ListLoop.
         { apply Nat.eqb_neq. rewrite Esrc, !app_length. cbn [length]. lia. }
         assert (Hfind : find_nl src (length pre) = Some (length pre + length l)%nat) by (rewrite Esrc; apply find_nl_at; assumption).
         assert (Hret : slice src (length pre) (length pre + length l) = l) by (rewrite Esrc; apply slice_mid; reflexivity).
-        assert (Hnb : nonempty l && negb (py_str_isspace l) = true).
-        { unfold l. change ([BSL] ++ sp1) with (render_tok bsl_tok ++ sp1). rewrite line_not_blank by reflexivity.
-          destruct seps; reflexivity. }
-        unfold ts_consume_line. cbn [ts_src ts_start ts_io ts_head ts_err ts_eof]. rewrite Hne, Hfind, Hret, Hnb.
+        assert (Hnb : relex_lexer_blank l = true).
+        { unfold relex_lexer_blank, l, strip_ws.
+          rewrite (strip_solid is_shlex_ws seps [BSL] sp1); [reflexivity | exact Hs1 | exact Hq1 |].
+          split; [exists BSL, []; split; reflexivity | exists [], BSL; split; reflexivity]. }
+        unfold ts_consume_line, ts_consume_line_with. cbn [ts_src ts_start ts_io ts_head ts_err ts_eof]. rewrite Hne, Hfind, Hret, Hnb.
         pose (pre2 := pre ++ l ++ [NL]).
         assert (Esrc2 : src = pre2 ++ sp2 ++ body its ++ tail) by (rewrite Esrc; unfold pre2; rewrite <- !app_assoc; reflexivity).
         assert (Elen2 : (length pre + length l + 1)%nat = length pre2) by (unfold pre2; len).
@@ -376,6 +377,22 @@ Section ListLoop.
           as (ts' & pre' & seps' & Hloop & Hs' & Hst' & Hsp' & Hcat).
         exists ts', pre', seps'. split; [rewrite Hloop; reflexivity|].
         repeat split; auto. rewrite Hcat. unfold pre2, l. rewrite body_cons. cbn [tok_of after_tok]. rewrite <- !app_assoc. reflexivity.
+  Qed.
+
+  (** the loops never swallow a missing / syntactically invalid look-ahead token: when the head is null
+      (end of source, or SYNTAX_ERROR after an unterminated quote) while the current line is not blank
+      and is not a continuation line, the element parser is asked and reports the error *)
+  Lemma list_loop_null_head_is_error : forall fuel acc ts,
+    ts_head ts = None -> tp_is_at_eol ts = false ->
+    text_eqb (strip_py (ts_remaining_part_of_current_line ts)) [BSL] = false ->
+    list_loop alnum (S fuel) acc ts = Raise ExInvalidArg /\ args_loop alnum (S fuel) acc ts = Raise ExInvalidArg.
+  Proof.
+    intros fuel acc ts Hh He Hc.
+    assert (Hp : tp_has_valid_head_unquoted_equals [41] ts = false).
+    { unfold tp_has_valid_head_unquoted_equals, tp_has_valid_head_token, ts_is_null. rewrite Hh. reflexivity. }
+    split; cbn [list_loop args_loop]; rewrite He, Hc, Hp; cbn [negb].
+    - unfold parse_symref_or_string, parse_fragments_w_is_plain, ts_is_null. rewrite Hh. reflexivity.
+    - unfold args_element, look_ahead_state. rewrite Hh. destruct (negb (ts_err ts)); reflexivity.
   Qed.
 
   Lemma body_length : forall its, wfl its = true -> (length its <= length (body its))%nat.
